@@ -64,16 +64,35 @@ class Impl:
             return op.ArraySlice(op.Address(o[1]), self.mk_val(o[2]), self.mk_val(o[3]))
         raise ValueError(o)
 
-    def mk_proto(self, prog):
+    def mk_proto(self, prog, alias=False):
+        """real ICmd / BranchLabel objects.  alias=True builds them the way callers do: ONE operand list object for
+        commands with the same operands, ONE operand object (Register, Address, Label, ArrayEntry, ArraySlice -- also
+        with literal indices) for equal operands of different commands"""
+        from netqasm.util.log import HostLine
+        import json as _json
+        objs, lists = {}, {}
+
+        def opnd(o):
+            if not alias or o[0] == "lit":
+                return self.mk_opnd(o)
+            k = _json.dumps(o)
+            if k not in objs:
+                objs[k] = self.mk_opnd(o)
+            return objs[k]
+
         cmds = []
         for c in prog:
             if c[0] == "lab":
                 cmds.append(self.ir.BranchLabel(c[1]))
+                continue
+            k = _json.dumps(c[3])
+            if alias and k in lists:
+                operands = lists[k]
             else:
-                from netqasm.util.log import HostLine
-                cmds.append(self.ir.ICmd(instruction=self.ir.GenericInstr[c[1].upper()], args=list(c[2]),
-                                         operands=[self.mk_opnd(o) for o in c[3]],
-                                         lineno=HostLine("app_alice.py", len(cmds)) if len(cmds) % 3 == 1 else None))
+                operands = [opnd(o) for o in c[3]]
+                lists[k] = operands
+            cmds.append(self.ir.ICmd(instruction=self.ir.GenericInstr[c[1].upper()], args=list(c[2]), operands=operands,
+                                     lineno=HostLine("app_alice.py", len(cmds)) if len(cmds) % 3 == 1 else None))
         return self.ir.ProtoSubroutine(commands=cmds, app_id=0)
 
     def view_instr(self, instr):
@@ -152,11 +171,11 @@ class Impl:
             return None
         return [self.operand.Register(self.encoding.RegisterName(b), i) for b, i in rsv]
 
-    def assemble_ir(self, fname, prog, rsv=None):
+    def assemble_ir(self, fname, prog, rsv=None, alias=False):
         """-> (outcome, subroutine or None); outcome = ['instrs', [...]] | ['failed', code]"""
         try:
             kw = {} if not rsv else dict(reserved_registers=self.mk_reserved(rsv))
-            sub = self.text.assemble_subroutine(self.mk_proto(prog), flavour=self.flav[fname], **kw)
+            sub = self.text.assemble_subroutine(self.mk_proto(prog, alias=alias), flavour=self.flav[fname], **kw)
             views = [self.view_instr(i) for i in sub.instructions]
         except Exception as e:  # any refusal
             return ["failed", self.classify(e)], None
@@ -199,6 +218,9 @@ class Impl:
         class Blocked(Exception):
             pass
 
+        class HugeArray(Exception):
+            pass
+
         class Bounded(Executor):
             def __init__(s2):
                 super().__init__(name="asmcheck")
@@ -217,6 +239,11 @@ class Impl:
             def _do_wait(s2):
                 # the base class would spin forever waiting for the network stack
                 raise Blocked()
+
+            def _initialize_array(s2, app_id, address, length):
+                if length is not None and length > 100000:
+                    raise HugeArray()  # would exhaust the harness's memory: the case is dropped, not compared
+                super()._initialize_array(app_id, address, length)
 
             # ---- recording (only the documented extension points and two bookkeeping methods are wrapped)
             def _do_single_qubit_instr(s2, instr, subroutine_id, address):
@@ -269,6 +296,9 @@ class Impl:
                 kind = 2
             except Blocked:
                 kind = 3
+            except HugeArray:
+                out.append(None)
+                break
             except Exception:
                 kind = 1
             line = 0 if kind == 0 else ex.fault_line
